@@ -34,7 +34,23 @@ impl AssignAddTransform {
                 // member target would be evaluated twice, so anything but an identifier, `this` or a
                 // literal is evaluated once into a temporal variable first
                 let mut target_assignations = Vec::new();
-                let mut left_expr = left_expr.clone();
+                let mut left_expr = without_parens(left_expr);
+                if let SimpleAssignTarget::SuperProp(super_prop) = &mut left_expr {
+                    if let SuperProp::Computed(computed) = &mut super_prop.prop {
+                        if !is_evaluated_without_effects(&computed.expr) {
+                            if let Some(id) =
+                                opv.ident_provider.get_temporal_ident_used_in_assignation(
+                                    &computed.expr,
+                                    &mut target_assignations,
+                                    &span,
+                                    IdentKind::Expr,
+                                )
+                            {
+                                computed.expr = Box::new(Expr::Ident(id));
+                            }
+                        }
+                    }
+                }
                 if let SimpleAssignTarget::Member(member) = &mut left_expr {
                     // when the key has to be evaluated first, the value of an identifier used as
                     // object must be taken before that (the key expression may reassign it)
@@ -106,9 +122,24 @@ impl AssignAddTransform {
     }
 }
 
+/// `(o().p) += x`: the parentheses around a member target mean nothing, the member is handled as such
+fn without_parens(target: &SimpleAssignTarget) -> SimpleAssignTarget {
+    if let SimpleAssignTarget::Paren(paren) = target {
+        let mut expr = &*paren.expr;
+        while let Expr::Paren(inner) = expr {
+            expr = &*inner.expr;
+        }
+        match expr {
+            Expr::Member(member) => return SimpleAssignTarget::Member(member.clone()),
+            Expr::SuperProp(super_prop) => {
+                return SimpleAssignTarget::SuperProp(super_prop.clone())
+            }
+            _ => {}
+        }
+    }
+    target.clone()
+}
+
 fn is_evaluated_without_effects(expr: &Expr) -> bool {
-    matches!(
-        expr,
-        Expr::Ident(_) | Expr::This(_) | Expr::Lit(_) | Expr::SuperProp(_)
-    )
+    matches!(expr, Expr::Ident(_) | Expr::This(_) | Expr::Lit(_))
 }
